@@ -79,6 +79,8 @@ def family(msg, exc):
     """classifies the failing input family for the violation key"""
     if isinstance(exc, RecursionError):
         return 'RecursionError-deep-nesting'
+    if isinstance(exc, UnicodeError):
+        return type(exc).__name__
     if isinstance(exc, ValueError) and not isinstance(exc, json.JSONDecodeError):
         return 'ValueError-int-digits'
     if isinstance(exc, TypeError):
